@@ -1,0 +1,112 @@
+//! Verification hooks. Compiled only with `--cfg walleye_verif`; the normal build never sees
+//! this module. Everything here is thread local, so the engine's own threads are unaffected
+//! unless a harness installs a clock / capture buffer on that very thread.
+#![allow(dead_code)]
+use crate::board::BoardState;
+use std::cell::RefCell;
+
+pub struct Clock {
+    pub queries: u64,             // how often out_of_time was consulted so far
+    pub expiry: Option<u64>,      // the k-th consultation (0 based) and all later ones say "out of time"
+    pub root_cap: Option<u32>,    // force expiry when the root list is sorted for the (cap+1)-th time
+    pub root_sorts: u32,          // root level sorts seen (= iterations started)
+    pub queries_at_cap: Option<u64>,
+    pub forced: bool,
+}
+
+thread_local! {
+    static CLOCK: RefCell<Option<Clock>> = RefCell::new(None);
+    static CAPTURE: RefCell<Option<Vec<String>>> = RefCell::new(None);
+    static ORDER: RefCell<Option<Vec<(u8, Vec<String>)>>> = RefCell::new(None);
+}
+
+pub fn clock_install(expiry: Option<u64>, root_cap: Option<u32>) {
+    CLOCK.with(|c| {
+        *c.borrow_mut() = Some(Clock {
+            queries: 0,
+            expiry,
+            root_cap,
+            root_sorts: 0,
+            queries_at_cap: None,
+            forced: false,
+        })
+    });
+}
+
+pub fn clock_remove() -> Option<Clock> {
+    CLOCK.with(|c| c.borrow_mut().take())
+}
+
+/// `None`: no virtual clock on this thread, use the wall clock.
+pub fn clock_query() -> Option<bool> {
+    CLOCK.with(|c| {
+        let mut c = c.borrow_mut();
+        match c.as_mut() {
+            None => None,
+            Some(clock) => {
+                let q = clock.queries;
+                clock.queries += 1;
+                Some(clock.forced || clock.expiry.map_or(false, |k| q >= k))
+            }
+        }
+    })
+}
+
+pub fn capture_start() {
+    CAPTURE.with(|c| *c.borrow_mut() = Some(Vec::new()));
+}
+
+pub fn capture_take() -> Vec<String> {
+    CAPTURE.with(|c| c.borrow_mut().take().unwrap_or_default())
+}
+
+/// true when the message was captured (and must not be printed)
+pub fn capture(message: &str) -> bool {
+    CAPTURE.with(|c| match c.borrow_mut().as_mut() {
+        None => false,
+        Some(v) => {
+            v.push(message.to_string());
+            true
+        }
+    })
+}
+
+pub fn order_start() {
+    ORDER.with(|c| *c.borrow_mut() = Some(Vec::new()));
+}
+
+pub fn order_take() -> Vec<(u8, Vec<String>)> {
+    ORDER.with(|c| c.borrow_mut().take().unwrap_or_default())
+}
+
+pub fn move_id(b: &BoardState) -> String {
+    match b.last_move {
+        None => "-".to_string(),
+        Some((from, to)) => match b.pawn_promotion {
+            Some(p) => format!("{}{}{}", from, to, p.kind.alg()),
+            None => format!("{}{}", from, to),
+        },
+    }
+}
+
+/// site: b'Q' quiescence, b'A' alpha-beta node, b'R' root
+pub fn log_order(site: u8, moves: &[BoardState]) {
+    if site == b'R' {
+        CLOCK.with(|c| {
+            if let Some(clock) = c.borrow_mut().as_mut() {
+                clock.root_sorts += 1;
+                if let Some(cap) = clock.root_cap {
+                    if clock.root_sorts > cap && !clock.forced {
+                        clock.forced = true;
+                        clock.queries_at_cap = Some(clock.queries);
+                    }
+                }
+            }
+        });
+    }
+    ORDER.with(|c| {
+        if let Some(v) = c.borrow_mut().as_mut() {
+            v.push((site, moves.iter().map(move_id).collect()));
+        }
+    });
+}
